@@ -150,6 +150,11 @@ def run_check(prop, tier, seed, workers):
             if i in outs:
                 try:
                     bad, detail = mod.replay_judge(scns[i], outs[i], v)
+                    for _ in range(getattr(mod, 'REPLAY_RETRIES', 0)):
+                        if bad:
+                            break
+                        o2 = run_replay(binary, [scns[i]])[0]
+                        bad, detail = mod.replay_judge(scns[i], o2, v)
                 except Exception as e:  # noqa
                     bad, detail = None, f'judge error {type(e).__name__}: {e}'
                 v['replay'] = {'scenario': scns[i], 'violated_on_real_code': bad, 'detail': detail}
@@ -171,6 +176,13 @@ def run_check(prop, tier, seed, workers):
                 outs = run_replay(binary, [s['scenario'] for s in todo])
                 for s, o in zip(todo, outs):
                     okv, detail = mod.validate_samples(s, o)
+                    # scenarios whose real run involves the crate's own randomness (e.g. the implicit-cleanup draw of the
+                    # object-store server) may differ from the prediction by chance: repeat before calling it a mismatch
+                    for _ in range(getattr(mod, 'REPLAY_RETRIES', 0)):
+                        if okv:
+                            break
+                        o = run_replay(binary, [s['scenario']])[0]
+                        okv, detail = mod.validate_samples(s, o)
                     if okv:
                         validated += 1
                     else:
